@@ -3,9 +3,9 @@ package main
 import (
 	"bytes"
 	"fmt"
-	"strings"
 	"math/big"
 	"sort"
+	"strings"
 	"time"
 
 	"github.com/ethereum/go-ethereum/common"
@@ -116,13 +116,13 @@ func (w *World) afterBlock(b *DecidedBlock) {
 	}
 	m.Cur = snap
 	bi := w.blockInfo(b)
-	w.oracleHead(bi)       // C09
-	w.oracleHandover(bi)   // C06
-	w.oracleLocking(bi)    // C11, C13, C14, C15
-	w.oracleRewards(bi)    // C12
-	w.oracleRelayer(bi)    // C01, C02, C16
-	w.oracleBitcoin(bi)    // C03, C05, C17, C20
-	w.oracleAdmission(bi)  // C10
+	w.oracleHead(bi)      // C09
+	w.oracleHandover(bi)  // C06
+	w.oracleLocking(bi)   // C11, C13, C14, C15
+	w.oracleRewards(bi)   // C12
+	w.oracleRelayer(bi)   // C01, C02, C16
+	w.oracleBitcoin(bi)   // C03, C05, C17, C20
+	w.oracleAdmission(bi) // C10
 	w.abstractState(bi)
 	m.Prev = snap
 	w.Stats.SimTime = w.Cmt.Time.Sub(simEpoch())
